@@ -6,3 +6,31 @@ from typing import Any
 
 def always(text: str | None, case: Any) -> bool:
     return True
+
+
+def non_ascii(text: str | None, case: Any) -> bool:
+    return bool(text) and not text.isascii()
+
+
+_ONLY_BACKSLASH = __import__("re").compile(r"(?m)^[ \t\f]*\\\r?\n")
+
+
+def line_is_only_backslash(text: str | None, case: Any) -> bool:
+    """Some physical line consists of nothing but a backslash continuation."""
+    return bool(text) and bool(_ONLY_BACKSLASH.search(text))
+
+
+def has_fstring(text: str | None, case: Any) -> bool:
+    import re
+
+    return bool(text) and bool(re.search(r"(?i)(?<![A-Za-z0-9_])(?:f|fr|rf|pf|fp)['\"]", text))
+
+
+def mixed_tab_space_indent(text: str | None, case: Any) -> bool:
+    """Leading whitespace uses a tab on some line and a space on some (possibly the same) line."""
+    import re
+
+    if not text:
+        return False
+    lead = re.findall(r"(?m)^[ \t\f]+", text)
+    return any("\t" in w for w in lead) and any(" " in w for w in lead)
